@@ -75,6 +75,9 @@ class Ctx:
         self.rule = ''
         self.extra = {}
         self.t0 = time.time()
+        # breadcrumb for crashes of the interpreter under test: the last case seen is kept in a small file that
+        # main.py reads when the child dies without writing a result
+        self._crumb = os.open(out + '.last', os.O_CREAT | os.O_RDWR | os.O_TRUNC, 0o644) if out else None
 
     @property
     def quick(self):
@@ -83,9 +86,19 @@ class Ctx:
     def scale(self, quick, thorough):
         return quick if self.quick else thorough
 
+    def mark(self, text):
+        """note what is about to run (survives a crash of this process)"""
+        if self._crumb is not None:
+            try:
+                os.pwrite(self._crumb, str(text)[:3000].encode('utf-8', 'replace').ljust(3000), 0)
+            except OSError:
+                pass
+
     def case(self, key, nontrivial=True, sample=None):
         """count one evaluated case; `key` identifies it for distinctness"""
         self.evaluations += 1
+        if self._crumb is not None:
+            self.mark(f'after case #{self.evaluations}: {sample if sample is not None else key!r}')
         if nontrivial:
             self._distinct.add(hashlib.blake2b(repr(key).encode(), digest_size=8).digest())
         if sample is not None and len(self.samples) < 6:
